@@ -97,23 +97,54 @@ type stageErr struct{ s int }
 
 func (e stageErr) Error() string { return "vp-throw-" + strconv.Itoa(e.s) }
 
-func mkLine(v, n int) string {
-	if n < 9 {
-		n = 9
+// A line's content is "%07d:%07d:" (label, declared content length) padded with 'x' to the declared length, so
+// that the projection checks the IDENTITY of the content (label, length, every byte) without logging the bytes.
+func lineContent(v, n int) string {
+	if n < 16 {
+		n = 16
 	}
-	return fmt.Sprintf("%07d", v) + strings.Repeat("x", n-8) + "\n"
+	return fmt.Sprintf("%07d:%07d:", v, n) + strings.Repeat("x", n-16)
 }
 
+// mkLine: a line of n bytes in total, ending in "\n".
+func mkLine(v, n int) string { return lineContent(v, n-1) + "\n" }
+
+// opLine concretises a putb operation: N = content length (0: the pipeline's default), M = line ending
+// ("" = "\n", "rn" = "\r\n", "none" = unterminated: only as a stage's last write, "empty" = the empty line, label 0).
+func opLine(o op, def int) string {
+	if o.M == "empty" {
+		return "\n"
+	}
+	n := o.N
+	if n == 0 {
+		n = def - 1
+	}
+	switch o.M {
+	case "rn":
+		return lineContent(o.V, n) + "\r\n"
+	case "none":
+		return lineContent(o.V, n)
+	}
+	return lineContent(o.V, n) + "\n"
+}
+
+// lineLabel projects a received line (with or without its ending) to its label; -1 if the content is not
+// exactly what some putb wrote (truncated, merged, torn); the empty line is label 0.
 func lineLabel(s string) int {
 	s = strings.TrimSuffix(s, "\n")
-	if len(s) < 7 {
+	s = strings.TrimSuffix(s, "\r")
+	if s == "" {
+		return 0
+	}
+	if len(s) < 16 || s[7] != ':' || s[15] != ':' {
 		return -1
 	}
-	n, err := strconv.Atoi(s[:7])
-	if err != nil || strings.Trim(s[7:], "x") != "" {
+	v, err1 := strconv.Atoi(s[:7])
+	n, err2 := strconv.Atoi(s[8:15])
+	if err1 != nil || err2 != nil || n != len(s) || strings.Trim(s[16:], "x") != "" {
 		return -1
 	}
-	return n
+	return v
 }
 
 func valueLabel(v any) int {
@@ -123,6 +154,9 @@ func valueLabel(v any) int {
 	case string:
 		if n, err := strconv.Atoi(v); err == nil {
 			return n
+		}
+		if n := lineLabel(v); n >= 0 {
+			return n // a line forwarded as a string value by a builtin filter
 		}
 	}
 	return -2
@@ -194,7 +228,7 @@ func stageCmd(fm *eval.Frame, id, s int) error {
 			}
 			pc++
 		case "putb":
-			line := mkLine(o.V, pr.LineLen)
+			line := opLine(o, pr.LineLen)
 			tr.log(event{Ev: "Start", S: s, K: "putb", V: o.V})
 			_, err := fm.ByteOutput().WriteString(line)
 			r := outcome(err)
